@@ -363,3 +363,39 @@ func AddSynDocs(r *Rng, b Batch, idbase string) Batch {
 	}
 	return b
 }
+
+// InDomain checks the clause of the input domain that generators and the shrinker can break (W2): a
+// location's source field is empty (= the field itself) or names a field that occurs in the batch.
+func (b Batch) InDomain() bool {
+	names := map[string]bool{}
+	for _, d := range b {
+		for _, fs := range [][]Field{d.Comps, d.Fields} {
+			for _, f := range fs {
+				names[f.Name] = true
+			}
+		}
+	}
+	for _, d := range b {
+		hasID := false
+		for _, f := range d.Fields {
+			if f.Name == "_id" && f.Stored {
+				hasID = true
+			}
+		}
+		if !hasID {
+			return false
+		}
+		for _, fs := range [][]Field{d.Comps, d.Fields} {
+			for _, f := range fs {
+				for _, t := range f.Toks {
+					for _, l := range t.Locs {
+						if l.Field != "" && !names[l.Field] {
+							return false
+						}
+					}
+				}
+			}
+		}
+	}
+	return true
+}
